@@ -299,8 +299,10 @@ def run_block(c, key, scale):
 
 
 def run_ecops(c, key, x, scale):
-    """the driver's concrete curve record `Crypto.secpOps` (on which every `py.*` / `contract.*` op of C07 / C08 runs)
-    against key.py's own arithmetic on secp256k1: add, neg, mul, u1*G + u2*P, ofXY, liftX, invN"""
+    """the record the driver evaluates, `Crypto.secpLawful` (ops `lawful.*`; every `py.*` / `contract.*` / `sig.*` / `sign.*` op
+    and, bridged, every key op of C07 - C10 / C02 runs on it; `EcLaws` of it is the theorem C08W.secpLawful_ec_laws, so
+    `proven=True`), and the FORMER record `Crypto.secpOps` (ops `ecops.*`, no Lean proof, `proven=False`), both against
+    key.py's own arithmetic on secp256k1: add, neg, mul, u1*G + u2*P, ofXY, liftX, invN"""
     rng = c.rng
     E = key.SECP256K1
     G = key.SECP256K1_G
@@ -319,6 +321,11 @@ def run_ecops(c, key, x, scale):
         c.tally("ecops.%s" % op)
         c.expect(line, expected, {"fn": "ecops." + op, "args": line[:2000], "note": note, "impl": expected[:300]},
                  proven=False, op="ecops." + op)
+        line2 = "lawful.%s %s" % (op, args)
+        c.count(("lawful", op, args), nontrivial=True)
+        c.tally("lawful.%s" % op)
+        c.expect(line2, expected, {"fn": "lawful." + op, "args": line2[:2000], "note": note, "impl": expected[:300]},
+                 proven=True, op="lawful." + op)
 
     pts = [x.rand_point(x.secp) for _ in range(3 * scale)] + [G, INF, E.negate(G), E.double(G)]
     for i in range(6 * scale):
